@@ -3,6 +3,7 @@ package rules
 import (
 	"fmt"
 	"go/ast"
+	"go/token"
 	"go/types"
 	"os"
 	"sort"
@@ -19,6 +20,8 @@ func init() {
 			"at run time (packages resolve and execution/engine) no field of a cached plan node is assigned outside constructors (frozen: the tracing field); the plan cache stores a plan only after planning reported no error and after post-processing, under a key that is the hash of the printed operation; a planner is created per cache miss and pooled planning kits are reset before they return to the pool; " +
 			"per-request outputs of normalization (the variables remap) are never backed by pooled, reused storage. It does not decide option transparency (value level).",
 		Mutants: []Mutant{
+			{Name: "a request that is executed again runs without its remap table (reverts part of the F80 fix)", File: "execution/engine/execution_engine.go", Rule: "C09-R10", Key: "ExecutionEngine.Execute/remap-table-settled",
+				Old: "\t\tremapVariables = operation.VariablesRemap()\n", New: "\t\t_ = operation.VariablesRemap()\n"},
 			{Name: "the nested data source transforms the shared upstream schema in place (reverts the F63 fix)", File: "v2/pkg/engine/datasource/graphql_datasource/graphql_datasource.go", Rule: "C09-R9", Key: "Planner.printOperation/shared-upstream-schema-read-only",
 				Old: "\townDefinition, err := p.config.upstreamSchemaCopy()\n\tif err != nil {\n\t\treturn nil, err\n\t}\n", New: "\townDefinition := definition\n"},
 			{Name: "forwarded extensions printed while ranging over the map (reverts the F46 fix)", File: "v2/pkg/engine/resolve/resolvable.go", Rule: "C09-R8", Key: "Resolvable.printExtensions/map-range-does-not-print",
@@ -62,6 +65,7 @@ type mapRangeSite struct {
 
 func runC09(r *fw.Run) {
 	defer c09SharedUpstreamSchemaIsReadOnly(r)
+	defer c09RemapTableAccompaniesTheDocument(r)
 	p := r.Prog
 	r.Rule("C09-R1", "no range over a map in the planning packages appends range-derived data to an outer slice that is not sorted afterwards, nor writes it to a writer/builder/hash (frozen exceptions carry a reason)")
 	// every entry was read on the pinned tree; the reason says why iteration order cannot reach the plan
@@ -1188,4 +1192,79 @@ func c09SharedUpstreamSchemaIsReadOnly(r *fw.Run) {
 	}
 	r.Expect("C09-R9", "functions of graphql_datasource that obtain the shared upstream schema", n, 2)
 	r.Note("C09-R9: %d mutating methods of *ast.Document computed", nMut)
+}
+
+// c09RemapTableAccompaniesTheDocument (R10): the engine renames the variables of a request's document to canonical names
+// and writes the renaming into the document, which the request object keeps. The table that maps the canonical names
+// back to the client's is needed by everything that reads variables afterwards (variable validation, the resolve
+// context). A request that is executed again (a retry, a stored request, a benchmark loop) arrives normalized: the
+// mapper does not run, and a table held only in a local variable of the first execution is gone — the second execution
+// validates and resolves a renamed document without a table. At every use of the remap table in ExecutionEngine.Execute
+// (argument of ValidateWithRemap, assignment of Context.RemapVariables) the variable has been assigned on every path:
+// from the variables mapper, or from the table stored with the request.
+func c09RemapTableAccompaniesTheDocument(r *fw.Run) {
+	p := r.Prog
+	r.Rule("C09-R10", "in ExecutionEngine.Execute the remap table handed to variable validation and to the resolve context has been assigned on every path — by the variables mapper, or from the table kept with the (already normalized) request")
+	fi := p.Func("engine", "ExecutionEngine.Execute")
+	if fi == nil {
+		r.Error("C09-R10: ExecutionEngine.Execute not found")
+		return
+	}
+	info := fi.Info()
+	// the remap variable: the local passed to ValidateWithRemap as its last argument
+	var remap types.Object
+	fw.WalkAll(fi.Decl.Body, func(nd ast.Node) bool {
+		if c, ok := nd.(*ast.CallExpr); ok {
+			if fn := fw.Callee(info, c); fn != nil && fn.Name() == "ValidateWithRemap" && len(c.Args) > 0 {
+				if id, isID := ast.Unparen(c.Args[len(c.Args)-1]).(*ast.Ident); isID {
+					remap = info.ObjectOf(id)
+				}
+			}
+		}
+		return true
+	})
+	if remap == nil {
+		r.Error("C09-R10: no call of ValidateWithRemap with a local remap table found in Execute")
+		return
+	}
+	n := 0
+	in := fw.NewInterp(fi)
+	use := func(pos token.Pos, what string, st *fw.State) {
+		if !in.Final() {
+			return
+		}
+		n++
+		r.Check(st.Must("remap-settled"), "C09-R10", "ExecutionEngine.Execute/remap-table-settled#"+itoa(n), p.Pos(pos), "the remap table "+what+" in Execute has been assigned on every path",
+			"the remap table "+what+" is still the zero value on a path (the request arrived normalized, the mapper did not run): a request executed for the second time validates and resolves its renamed document without the table — `query($userID: String){ user(id: $userID) }` sends `\"variables\":{}` the second time, a required variable is reported as `$a … was not provided`")
+	}
+	in.H = fw.Hooks{
+		Lit: func(l *ast.FuncLit, ctx fw.LitCtx, st *fw.State) fw.LitMode { return fw.LitSkip },
+		Node: func(nd ast.Node, st *fw.State) {
+			switch x := nd.(type) {
+			case *ast.AssignStmt:
+				for i, l := range x.Lhs {
+					if id, isID := l.(*ast.Ident); isID && info.ObjectOf(id) == remap && x.Tok == token.ASSIGN {
+						if len(x.Rhs) == len(x.Lhs) {
+							if _, isCall := ast.Unparen(x.Rhs[i]).(*ast.CallExpr); isCall {
+								st.Set("remap-settled")
+							}
+						} else if len(x.Rhs) == 1 {
+							st.Set("remap-settled")
+						}
+					}
+					if fw.IsFieldSel(info, l, "resolve", "Context", "RemapVariables") && i < len(x.Rhs) {
+						if id, isID := ast.Unparen(x.Rhs[i]).(*ast.Ident); isID && info.ObjectOf(id) == remap {
+							use(x.Pos(), "assigned to Context.RemapVariables", st)
+						}
+					}
+				}
+			case *ast.CallExpr:
+				if fn := fw.Callee(info, x); fn != nil && fn.Name() == "ValidateWithRemap" {
+					use(x.Pos(), "handed to ValidateWithRemap", st)
+				}
+			}
+		},
+	}
+	in.Run(nil)
+	r.Expect("C09-R10", "uses of the remap table in Execute", n, 2)
 }
